@@ -886,7 +886,9 @@ func (s *Store) DeleteShard(shardID uint64) error {
 		return err
 	} else {
 		// Remove index type from the database on success
+		s.mu.Lock()
 		s.databases[db].removeIndexType(sh.IndexType())
+		s.mu.Unlock()
 		return nil
 	}
 }
